@@ -1458,6 +1458,11 @@ class ModelBuilder:
                     scenario_idx = self._get_scenario_index(obj.project, scenario_id)
                     if scenario_idx is not None and attr_data and isinstance(attr_data, tuple):
                         attr_key, attr_value = attr_data
+                        if attr_key in ("duration", "length"):
+                            # Not supported by the scheduler, which ignores the unprefixed form as
+                            # well; their value is still the text as written ('3d') and must not
+                            # reach the slot arithmetic
+                            continue
                         obj[(attr_key, scenario_idx)] = attr_value
                         # A nested scenario starts from its parent scenario: the override also holds
                         # for every scenario below this one that has no override of its own
